@@ -13,7 +13,8 @@ from common import fhex
 
 import gradysim  # noqa: F401  (from /repo, see common.py)
 from gradysim.protocol.interface import IProtocol
-from gradysim.protocol.messages.communication import SendMessageCommand, BroadcastMessageCommand
+from gradysim.protocol.messages.communication import (SendMessageCommand, BroadcastMessageCommand,
+                                                      CommunicationCommand, CommunicationCommandType)
 from gradysim.protocol.messages.mobility import (GotoCoordsMobilityCommand, GotoGeoCoordsMobilityCommand,
                                                  SetSpeedMobilityCommand)
 from gradysim.protocol.messages.telemetry import Telemetry
@@ -112,6 +113,8 @@ def _act_str(a):
         return "send %d %s" % (a[1], "none" if a[2] is None else str(a[2]))
     if k == "bcast":
         return "bcast %d" % a[1]
+    if k == "bcastdst":
+        return "bcastdst %d %d" % (a[1], a[2])
     if k in ("goto", "gotogeo"):
         return "%s %s %s %s" % (k, fhex(a[1]), fhex(a[2]), fhex(a[3]))
     if k in ("speed", "range"):
@@ -175,6 +178,8 @@ class ScriptedProtocol(IProtocol):
             p.send_communication_command(SendMessageCommand(str(a[1]), a[2]))
         elif k == "bcast":
             p.send_communication_command(BroadcastMessageCommand(str(a[1])))
+        elif k == "bcastdst":
+            p.send_communication_command(CommunicationCommand(CommunicationCommandType.BROADCAST, str(a[1]), a[2]))
         elif k == "goto":
             p.send_mobility_command(GotoCoordsMobilityCommand(a[1], a[2], a[3]))
         elif k == "gotogeo":
